@@ -332,7 +332,8 @@ theorem inRolling_total (w : World) (old ns : Rollout) (s os : Sub) (wl : WL)
 theorem not_corrupted (w : World) (h : corrupted w = false) :
     w.ro.steps ≠ [] ∧ ¬ (w.ro.phase = .progressing ∧ w.ro.reason = .none) ∧ ¬ (w.ro.phase = .terminating ∧ w.ro.term = .none) ∧
     ¬ (w.ro.phase = .progressing ∧ w.ro.reason = .inRolling ∧ w.ro.sub = none) ∧
-    (∀ s, w.ro.sub = some s → 1 ≤ s.curIdx ∧ s.curIdx ≤ w.ro.steps.length ∧ s.lastUpdate ≠ .none) ∧
+    (w.ro.phase = .progressing → w.ro.reason = .inRolling →
+      ∀ s, w.ro.sub = some s → 1 ≤ s.curIdx ∧ s.curIdx ≤ w.ro.steps.length ∧ s.lastUpdate ≠ .none) ∧
     (w.ro.phase = .progressing → w.ro.reason = .inRolling → BrOk w.br) := by
   unfold corrupted at h
   simp only [Bool.or_eq_false_iff, Bool.and_eq_false_iff] at h
@@ -346,12 +347,15 @@ theorem not_corrupted (w : World) (h : corrupted w = false) :
     · simp [h1] at d
     · simp [h2] at d
     · simp [h3] at d
-  · intro s hs
-    rw [hs] at e
-    simp only [Bool.or_eq_false_iff, decide_eq_false_iff_not, not_or, Int.not_lt] at e
-    obtain ⟨⟨e1, e2⟩, e3⟩ := e
-    refine ⟨by omega, by omega, ?_⟩
-    intro hl; rw [hl] at e3; simp at e3
+  · intro h1 h2 s hs
+    rcases e with (e | e) | e
+    · simp [h1] at e
+    · simp [h2] at e
+    · rw [hs] at e
+      simp only [Bool.or_eq_false_iff, decide_eq_false_iff_not, not_or, Int.not_lt] at e
+      obtain ⟨⟨e1, e2⟩, e3⟩ := e
+      refine ⟨by omega, by omega, ?_⟩
+      intro hl; rw [hl] at e3; simp at e3
   · intro h1 h2 b hb
     rcases f with (f | f) | f
     · simp [h1] at f
@@ -422,7 +426,7 @@ theorem reconcile_total (w : World) (h : corrupted w = false) : reconcile w ≠ 
                 rw [hos] at hrel
                 simp only [Option.map_some, Option.some.injEq, subCore, Prod.mk.injEq] at hrel
                 obtain ⟨c1, _, _, c4, _⟩ := hrel
-                obtain ⟨b1, b2, b3⟩ := hsub os hos
+                obtain ⟨b1, b2, b3⟩ := hsub hph hr os hos
                 have := inRolling_total w w.ro ns s os wl hos nsteps (by omega)
                   (by rw [hsame.1, e_steps]; omega) (by rw [c4]; exact b3) (hbr hph hr)
                 split
@@ -1708,20 +1712,90 @@ theorem upgrade_done_unsynced (c : Ctx) (s : Sub) (h : (doCanaryUpgrade c.ro s c
       · dsimp only at h; simp at h
     · first | exact hb | rfl
 
+/-- **one round of the release manager** enters `StepTrafficRouting` or `StepMetricsAnalysis` (the sub-states after
+    the step's pods are in place) only from a sub-state in which the pods were already reported ready, or from
+    `StepUpgrade` / `BeforeStepUpgrade` of the same step in a round in which the BatchRelease reports them ready -/
+theorem runCanary_pods_gated (c0 c' : Ctx) (err : Bool) (h : runCanary c0 = .ok c' err)
+    (hst : c'.sub.state = .trafficRouting ∨ c'.sub.state = .metricsAnalysis)
+    (hne : c0.sub.state ≠ c'.sub.state ∨ c'.sub.curIdx ≠ c0.sub.curIdx) :
+    Upgraded c0.sub.state ∨
+    ((c0.sub.state = .upgrade ∨ c0.sub.state = .init) ∧ c'.sub.curIdx = c0.sub.curIdx ∧
+      ∃ c : Ctx, c.sub.curIdx = c0.sub.curIdx ∧ c.wl = c0.wl ∧ c.br = (syncStep c0).br ∧ UpgradeDone c0.ro c) := by
+  obtain ⟨y1, y2, y3, y4, y5⟩ := syncStep_sub c0
+  unfold runCanary at h
+  dsimp only at h
+  split at h
+  · cases h
+  · -- jumped: the target starts in StepInit, or in StepTrafficRouting when the pods were ready
+    rename_i s2 hj
+    simp only [RunOut.ok.injEq] at h; obtain ⟨hc, _⟩ := h; subst hc
+    obtain ⟨_, hjs⟩ := jump_spec _ _ _ _ hj
+    obtain ⟨_, _, _, _, _, j6, j7⟩ := hjs rfl
+    rw [y3] at j7
+    dsimp only at hst
+    rcases j6 with j6 | j6
+    · exact Or.inl (j7 j6)
+    · rw [j6] at hst; rcases hst with h1 | h1 <;> cases h1
+  · rename_i s2 hj
+    obtain ⟨hsame, _⟩ := jump_spec _ _ _ _ hj
+    have hs2 : s2 = (syncStep c0).sub := hsame rfl
+    subst hs2
+    split at h
+    · cases h
+    · rename_i step _
+      split at h
+      · cases h
+      · rename_i c3 done e hpre
+        have hc3 : c3.sub.curIdx = c0.sub.curIdx ∧ c3.sub.state = c0.sub.state ∧ c3.wl = c0.wl ∧ c3.br = (syncStep c0).br := by
+          unfold preStep at hpre
+          split at hpre
+          · obtain ⟨a, b, _, _, d, e', _⟩ := callTM_sub _ _ _ _ _ _ hpre
+            dsimp only at a b d e'
+            exact ⟨by rw [a, y1], by rw [b, y3], by rw [d, y5], e'⟩
+          · simp only [Option.some.injEq, Prod.mk.injEq] at hpre
+            rw [← hpre.1]; exact ⟨y1, y3, y5, rfl⟩
+        have stop : ∀ cx : Ctx, cx.sub = c3.sub → c' = cx → False := by
+          intro cx h1 h2
+          subst h2
+          rcases hne with hn | hn
+          · exact hn (by rw [h1, hc3.2.1])
+          · exact hn (by rw [h1, hc3.1])
+        split at h
+        · simp only [RunOut.ok.injEq] at h; exact (stop c3 rfl h.1.symm).elim
+        · split at h
+          · simp only [RunOut.ok.injEq] at h; exact (stop { c3 with requeue := true } rfl h.1.symm).elim
+          · have sp := stateStep_spec _ _ _ _ _ h
+            by_cases hsame' : c'.sub.state = c3.sub.state
+            · -- same sub-state: the index moved, which only happens from StepReady into StepInit
+              rcases sp.cursor with hc | ⟨_, _, r3, _, _⟩
+              · exfalso
+                rcases hne with hn | hn
+                · exact hn (by rw [hsame', hc3.2.1])
+                · exact hn (by rw [hc, hc3.1])
+              · rw [r3] at hst; rcases hst with h1 | h1 <;> cases h1
+            · rcases sp.routing hst hsame' with ⟨r1, _⟩ | ⟨r1, r2⟩
+              · left; rw [← hc3.2.1, r1]; unfold Upgraded; simp
+              · right
+                have hcur : c'.sub.curIdx = c0.sub.curIdx := by
+                  rcases sp.cursor with hc | ⟨r', _, _, _, _⟩
+                  · rw [hc, hc3.1]
+                  · rcases r1 with r1 | r1 <;> rw [r1] at r' <;> cases r'
+                exact ⟨by rw [← hc3.2.1]; exact r1, hcur, c3, hc3.1, hc3.2.2.1, hc3.2.2.2, r2⟩
+
 theorem podsReady_iff (st : StepState) : podsReady st = true ↔ Upgraded st := by
   unfold podsReady Upgraded; cases st <;> simp
 
 theorem inRolling_routing (w : World) (old ns : Rollout) (s os : Sub) (wl : WL) (r : StepResult) (s' : Sub)
     (hold : old.sub = some os) (hns : ns.sub = some s)
     (h : inRolling w old ns s wl = .val r) (hs' : r.w.ro.sub = some s')
-    (hst : s'.state = .trafficRouting) (hch : s.state ≠ .trafficRouting ∨ s'.curIdx ≠ s.curIdx) :
+    (hst : s'.state = .trafficRouting ∨ s'.state = .metricsAnalysis) (hch : s.state ≠ s'.state ∨ s'.curIdx ≠ s.curIdx) :
     Upgraded s.state ∨
     ((s.state = .upgrade ∨ s.state = .init) ∧ s'.curIdx = s.curIdx ∧
       (doCanaryUpgrade ns { s with nextIdx := s'.nextIdx } wl w.br).1 = true) := by
   have same : ∀ (P : Prop), s'.curIdx = s.curIdx → s'.state = s.state → P := by
     intro P h1 h2
     rcases hch with hc | hc
-    · exact absurd (h2 ▸ hst) hc
+    · exact absurd h2.symm hc
     · exact absurd h1 hc
   unfold inRolling at h
   dsimp only at h
@@ -1732,7 +1806,7 @@ theorem inRolling_routing (w : World) (old ns : Rollout) (s os : Sub) (wl : WL) 
   · split at h
     · cases h; dsimp only at hs'; rw [hns] at hs'; cases hs'; exact same _ rfl rfl
     · split at h
-      · cases h; dsimp only at hs'; cases hs'; cases hst
+      · cases h; dsimp only at hs'; cases hs'; rcases hst with h1 | h1 <;> cases h1
       · split at h
         · split at h
           · cases h; dsimp only at hs'; rw [hns] at hs'; cases hs'; exact same _ rfl rfl
@@ -1751,15 +1825,19 @@ theorem inRolling_routing (w : World) (old ns : Rollout) (s os : Sub) (wl : WL) 
           · split at h
             · cases h
             · split at h
-              · cases h; dsimp only at hs'; cases hs'; cases hst
+              · cases h; dsimp only at hs'; cases hs'; rcases hst with h1 | h1 <;> cases h1
               · split at h
                 · cases h
                 · rename_i s2 j hj
                   cases h; dsimp only at hs'; cases hs'
                   obtain ⟨j1, j2⟩ := jump_spec _ _ _ _ hj
                   cases j with
-                  | false => have := j1 rfl; subst this; dsimp only at hst; exact same _ rfl rfl
-                  | true => exact Or.inl ((j2 rfl).2.2.2.2.2.2 hst)
+                  | false => have := j1 rfl; subst this; exact same _ rfl rfl
+                  | true =>
+                    obtain ⟨_, _, _, _, _, jst, jup⟩ := j2 rfl
+                    rcases jst with jst | jst
+                    · exact Or.inl (jup jst)
+                    · rw [jst] at hst; rcases hst with h1 | h1 <;> cases h1
           · split at h
             · cases h; dsimp only at hs'; rw [hns] at hs'; cases hs'; exact same _ rfl rfl
             · split at h
@@ -1767,15 +1845,15 @@ theorem inRolling_routing (w : World) (old ns : Rollout) (s os : Sub) (wl : WL) 
               · rename_i c e hrun
                 cases h
                 unfold ofCtx at hs'; dsimp only at hs'; cases hs'
-                obtain ⟨_, g2, _⟩ := runCanary_gated _ _ _ hrun
                 -- the status the release manager started from
                 generalize hs0 : (if s.nextIdx ≤ 0 ∨ s.nextIdx > (ns.steps.length : Int) then
-                    { s with nextIdx := nextBatchIndex ns.steps.length s.curIdx } else s) = s0 at g2 hrun
+                    { s with nextIdx := nextBatchIndex ns.steps.length s.curIdx } else s) = s0 at hrun
                 have hcur : s0.curIdx = s.curIdx := by rw [← hs0]; split <;> rfl
                 have hsta : s0.state = s.state := by rw [← hs0]; split <;> rfl
+                have g2 := runCanary_pods_gated _ _ _ hrun hst (by unfold toCtx; dsimp only; rw [hsta, hcur]; exact hch)
                 unfold toCtx at g2
                 dsimp only at g2
-                rcases g2 hst (by rw [hsta, hcur]; exact hch) with hu | ⟨hui, hcs, _, cx, cx1, cx2, cx3, cx4⟩
+                rcases g2 with hu | ⟨hui, hcs, cx, cx1, cx2, cx3, cx4⟩
                 · exact Or.inl (hsta ▸ hu)
                 · right
                   refine ⟨hsta ▸ hui, hcs.trans hcur, ?_⟩
@@ -1840,7 +1918,7 @@ theorem enter_routing_gated (w : World) (r : StepResult) (h : reconcile w = .val
       intro he
       rw [hs', hos] at he; cases he
       rcases hch with hc | hc
-      · exact hc hst
+      · exact hc rfl
       · exact hc rfl
     cases hw : w.wl with
     | none =>
@@ -2056,4 +2134,161 @@ theorem full_step_unpins_first (w : World) (r : StepResult) (h : reconcile w = .
         cases hse : r0.w.net.stableExists with
         | false => simp
         | true => simp [this hse]
+  · rfl
+
+/-! ### C10 — supersession: the reset puts traffic back on stable first -/
+
+theorem prStage3_net (c c' : Ctx) (d e : Bool) (h : prStage3 c = some (c', d, e)) :
+    c'.net.canaryIng = c.net.canaryIng ∧ c'.br = c.br := by
+  unfold prStage3 at h
+  split at h
+  · cases h
+  · rename_i c1 _ _ hc
+    have hnet : c1.net.canaryIng = c.net.canaryIng ∧ c1.br = c.br := by
+      unfold callTM at hc
+      split at hc
+      · cases hc
+      · simp only [Option.some.injEq, Prod.mk.injEq] at hc
+        obtain ⟨hcc, _, _⟩ := hc
+        subst hcc
+        obtain ⟨_, hi, _⟩ := RV.Props.Traffic.rc_spec _ c.net c.mem
+        exact ⟨hi, rfl⟩
+    split at h <;> (cases h; exact hnet)
+
+theorem prStage2_net (c c' : Ctx) (d e : Bool) (h : prStage2 c = some (c', d, e)) :
+    c'.net.canaryIng = c.net.canaryIng := by
+  unfold prStage2 at h
+  dsimp only at h
+  split at h
+  · cases h; rfl
+  · have := prStage3_net _ _ _ _ h
+    exact this.1
+
+/-- **C10 (reset)** — for every context with traffic routing whose reset has not yet passed its first stage:
+    if `doProgressingReset` does not fail, either it touched neither the BatchRelease nor the canary Service
+    (the gateway is still being restored), or no canary route is left. -/
+theorem reset_routes_first (c c' : Ctx) (d : Bool) (hhas : c.ro.hasTraffic = true)
+    (h1 : c.sub.finStep ≠ .releaseWorkloadControl) (h2 : c.sub.finStep ≠ .removeCanaryService)
+    (h : doProgressingReset c = some (c', d, false)) :
+    (c'.br = c.br ∧ c'.net.canarySvc = c.net.canarySvc) ∨ c'.net.canaryIng = none := by
+  have hcur : (prCursor c).sub.finStep = .routeTrafficToStable ∧ (prCursor c).net = c.net ∧ (prCursor c).br = c.br ∧
+      (prCursor c).ro = c.ro ∧ (prCursor c).mem = c.mem ∧ (prCursor c).wlSeen = c.wlSeen := by
+    unfold prCursor
+    split
+    · rename_i hf; exact ⟨hf, rfl, rfl, rfl, rfl, rfl⟩
+    · rename_i hf; exact absurd hf h1
+    · rename_i hf; exact absurd hf h2
+    · exact ⟨rfl, rfl, rfl, rfl, rfl, rfl⟩
+  obtain ⟨k1, k2, k3, k4, _, _⟩ := hcur
+  unfold doProgressingReset at h
+  rw [if_neg (by simp [hhas])] at h
+  split at h
+  · cases h
+  · dsimp only at h
+    rw [k1] at h
+    dsimp only at h
+    split at h
+    · cases h
+    · rename_i c2 rt er hc
+      -- what RestoreGateway leaves behind
+      have hgw : c2.br = c.br ∧ c2.net.canarySvc = c.net.canarySvc ∧ c2.net.canaryIng = none := by
+        unfold callTM at hc
+        split at hc
+        · cases hc
+        · rename_i t ht
+          simp only [Option.some.injEq, Prod.mk.injEq] at hc
+          obtain ⟨hcc, _, _⟩ := hc
+          subst hcc
+          obtain ⟨_, hsv, _, _, _, hin, _⟩ := RV.Props.Traffic.rg_spec { t with hasRevKey := (prCursor c).wlSeen } (prCursor c).net (prCursor c).mem
+          have href : t.hasRef = true := by
+            unfold trCtx at ht; split at ht <;> simp at ht <;> (try rw [← ht]) <;> (try simp [k4, hhas])
+          dsimp only
+          exact ⟨k3, by rw [hsv, k2], hin (by simpa using href)⟩
+      split at h
+      · cases h
+        exact Or.inl ⟨hgw.1, hgw.2.1⟩
+      · right
+        have := prStage2_net _ _ _ _ h
+        rw [this]
+        exact hgw.2.2
+
+/-- **C10 (supersession, whole reconcile)** — for every world: while a newer revision supersedes the one being
+    released, a reconcile that starts the reset deletes the BatchRelease / removes the canary Service only
+    if it leaves no canary route behind. -/
+theorem reset_routes_first_reconcile (w : World) (r : StepResult) (h : reconcile w = .val r) :
+    resetRoutesFirst w r = true := by
+  unfold resetRoutesFirst
+  cases hos : w.ro.sub with
+  | none => rfl
+  | some os =>
+  cases hw : w.wl with
+  | none => rfl
+  | some wl =>
+  dsimp only
+  split
+  · rename_i hc
+    obtain ⟨hnow, hcons, hnrb, hnp, hstyle, hhas, hne, hrev, hf1, hf2, hnerr⟩ := hc
+    have hnow' := hnow
+    unfold inRollingNow at hnow'
+    simp only [Bool.and_eq_true, decide_eq_true_eq, Bool.not_eq_true'] at hnow'
+    obtain ⟨⟨hph, hr⟩, _⟩ := hnow'
+    obtain ⟨ns, s, hsame, hs, hcore, _, hrec⟩ := reconcile_inRolling w wl os hph hr hw hcons hos
+    simp only [subCore, Prod.mk.injEq] at hcore
+    obtain ⟨_, _, _, _, c5, c6, _⟩ := hcore
+    rw [hrec] at h
+    -- the dispatch takes the continuous-release branch of a canary rollout
+    have hbr : inRolling w w.ro ns s wl =
+        (match doProgressingReset (toCtx { w with ro := ns } s wl) with
+         | none => .panic
+         | some (c, done, err) =>
+           if err then .val { w := ofCtx w c ns, roGone := false, requeue := false, err := true, writes := c.writes }
+           else if done then
+             .val { w := { (ofCtx w c ns) with ro := { (ofCtx w c ns).ro with sub := none, reason := .initializing } },
+                    roGone := false, requeue := false, err := false, writes := c.writes }
+           else .val { w := ofCtx w c ns, roGone := false, requeue := true, err := false, writes := c.writes }) := by
+      unfold inRolling
+      dsimp only
+      rw [hos]
+      dsimp only
+      rw [if_neg (by intro hh; exact hnrb hh.1), if_neg (by rw [hsame.2.2.2.1]; exact hnp),
+          if_neg (by intro hh; exact hnrb hh.1), if_pos ⟨hne, hrev, hnrb⟩,
+          if_neg (by rw [hsame.2.2.1, hstyle]; simp)]
+      first | rfl | (split <;> rfl) | (split <;> (try rfl) <;> (split <;> rfl))
+    cases hres : doProgressingReset (toCtx { w with ro := ns } s wl) with
+    | none => rw [hbr, hres] at h; cases h
+    | some res =>
+      obtain ⟨c, d, e⟩ := res
+      have hval : ∃ r0 : StepResult, inRolling w w.ro ns s wl = .val r0 ∧ r0.err = e ∧ r0.w.br = c.br ∧ r0.w.net = c.net := by
+        rw [hbr, hres]
+        dsimp only
+        cases e with
+        | true => exact ⟨_, rfl, rfl, rfl, rfl⟩
+        | false =>
+          cases d with
+          | true => exact ⟨_, rfl, rfl, rfl, rfl⟩
+          | false => exact ⟨_, rfl, rfl, rfl, rfl⟩
+      obtain ⟨r0, hr0, he0, hb0, hn0⟩ := hval
+      rw [hr0] at h
+      dsimp only at h
+      cases e with
+      | true =>
+        rw [if_pos he0] at h
+        cases h
+        exact absurd rfl hnerr
+      | false =>
+        rw [if_neg (by simp [he0])] at h
+        cases h
+        dsimp only
+        have hk : (c.br = w.br ∧ c.net.canarySvc = w.net.canarySvc) ∨ c.net.canaryIng = none := by
+          have := reset_routes_first (toCtx { w with ro := ns } s wl) c d (by unfold toCtx; rw [hsame.2.1]; exact hhas)
+            (by unfold toCtx; dsimp only; rw [c5]; exact hf1) (by unfold toCtx; dsimp only; rw [c5]; exact hf2) hres
+          unfold toCtx at this
+          exact this
+        rw [hb0, hn0]
+        rcases hk with ⟨k1, k2⟩ | k3
+        · rw [k1, k2]
+          cases hb : w.br with
+          | none => simp; exact Or.inl (Classical.em _)
+          | some b => simp; exact Or.inl (Classical.em _)
+        · rw [k3]; simp
   · rfl
